@@ -1,7 +1,7 @@
 #!/bin/sh
 # developer helper: run every family in both profiles and print the driver summary
 for prof in debug release; do
-for bf in "h_core C02" "h_core C03" "h_core C05" "h_core C06" "h_core C07" "h_core C08" "h_core C09" "h_core C10" "h_core C11" "h_core C12" "h_core C13" "h_core C14" "h_core C15" "h_core C16" "h_core C17" "h_core C18" "h_core C19" "h_ops C01" "h_ops C02" "h_ops C03" "h_ops C04" "h_ops C05" "h_forms C20"; do
+for bf in "h_core C02" "h_core C03" "h_core C05" "h_core C06" "h_core C07" "h_core C08" "h_core C09" "h_core C10" "h_core C11" "h_core C12" "h_core C13" "h_core C14" "h_core C15" "h_core C16" "h_core C17" "h_core C18" "h_core C19" "h_core OC01" "h_core OC02" "h_core OC03" "h_core OC04" "h_core OC05" "h_forms C20"; do
   set -- $bf
   s=$(date +%s.%N)
   ./harness/target/$prof/$1 gen $2 ${SEED:-1} ${TIER:-quick} work/r_$1_$2_$prof.txt
